@@ -367,6 +367,55 @@ theorem safeApply_refused (nargs declared : Nat) (body : Prog) (m : M) (h : save
   obtain ⟨m2, hp, h2v, h2c, h2x⟩ := popN_exact (n := nargs) (m := pushVals nargs m) (rest := m.vs) rfl (by simp)
   exact ⟨m2, by simp only [execCore, h, hp], h2v, h2c, h2x⟩
 
+/-- **restore_is_inverse for all arities (safe_apply).**  For EVERY number of passed arguments and EVERY number of
+    declared parameters (surplus arguments dropped on entry, missing ones added), every body and every fault position:
+    safe_apply completes — it absorbs every error of the applied function — with the value stack exactly as it was
+    before the arguments were pushed, the control stack and the error-context chain as they were, and both guards. -/
+theorem safeApply_all_arities (nargs declared : Nat) (body : Prog) (m : M) :
+    ∃ m', execCore (.safeApply nargs declared body) m = .ok m' ∧
+      m'.vs = m.vs ∧ m'.cs = m.cs ∧ m'.ctxs = m.ctxs ∧
+      m'.loadDepth = m.loadDepth ∧ m'.restrictDestruct = m.restrictDestruct := by
+  have hg := execCore_guards (.safeApply nargs declared body) m
+  have key : ∃ m', execCore (.safeApply nargs declared body) m = .ok m' ∧ Same m m' := by
+    simp only [execCore]
+    split
+    · obtain ⟨m2, hp, h2v, h2c, h2x⟩ := popN_exact (n := nargs) (m := pushVals nargs m) (rest := m.vs) rfl (by simp)
+      exact ⟨m2, by simp only [hp], ⟨h2v, h2c, h2x⟩⟩
+    · rename_i econ0 m2 hs
+      obtain ⟨he, h1v, h1c, h1x, h1g⟩ := saveContext_spec hs
+      obtain ⟨ev, ex, fs, efl, ec⟩ := enterCall_spec (.other masterVal) declared m2
+      obtain ⟨m3, ha, h3v, h3c, h3x⟩ := adjustArgs_spec (nargs := nargs) (declared := declared)
+        (m1 := enterCall (.other masterVal) declared m2) (rest := m.vs) (ev.trans h1v)
+      simp only [ha]
+      have hctx : safeCtx nargs econ0 = ctxOf m := by
+        rw [he]; simp [safeCtx, pushVals, ctxOf]
+      rw [hctx]
+      match fs, efl with
+      | [f], _ =>
+        exact safeFinish_total (f := f) (e0 := econ0) h3v (by rw [h3c, ec, h1c]; rfl) (by rw [h3x, ex, h1x]; rfl)
+          (thenTick_good (exec_good body m3))
+  obtain ⟨m', h1, hs⟩ := key
+  rw [h1] at hg
+  exact ⟨m', h1, hs.vs, hs.cs, hs.ctxs, hg.1, hg.2⟩
+
+/-- **restore_is_inverse for all arities (calls of every kind).**  A call of any kind with any number of passed and
+    declared arguments either completes with both stacks and the chain as before the arguments were pushed, or
+    raises in a state extending the start state (so `restore_context` of any enclosing recovery point is exact). -/
+theorem call_all_arities (k : CallKind) (nargs declared : Nat) (body : Prog) (m : M) :
+    match execCore (.call k nargs declared body) m with
+    | .ok m' => m'.vs = m.vs ∧ m'.cs = m.cs ∧ m'.ctxs = m.ctxs
+    | .err m' => (∃ dv dc, Extends m m' dv dc) ∧ m'.ctxs = m.ctxs
+    | .crash _ _ => m.ctxs = [] := by
+  have h := execCore_good (.call k nargs declared body) m
+  cases hr : execCore (.call k nargs declared body) m with
+  | ok m' => rw [hr] at h; exact ⟨h.vs, h.cs, h.ctxs⟩
+  | err m' =>
+    rw [hr] at h
+    obtain ⟨dv, hv⟩ := h.vs
+    obtain ⟨dc, hc⟩ := h.cs
+    exact ⟨⟨dv, dc, ⟨hv, hc⟩⟩, h.ctxs⟩
+  | crash w m' => rw [hr] at h; exact h
+
 /-- **context_chain_restored for runs that hit the refusal** (and every other run): whatever an op does — including a
     catch or a safe apply placed exactly where save_context refuses — if it completes, the chain is the chain before;
     if it raises, the chain is the chain before.  (`exec_good` specialised to one op, stated for the chain.) -/
@@ -424,5 +473,28 @@ theorem model_satisfies_spec (ob : Val) (p : Prog) (k : Nat) (m0 : M) : judgeObs
     cases he : isErr (topBody ob p { m1 with fault := k }) with
     | false => simp [judgeObs, obsOf, hv, hc, hx, hr, hld, hrd]
     | true => simp [judgeObs, obsOf, hv, hc, hx, hr, hld, hrd, hcg' he]
+
+/-! ### negative examples: the oracle rejects what it should reject (one per clause of `judgeObs`) -/
+
+def obs0 : Obs := { sp := 3, csp := 2, ctx := 1, cg := 4, co := 5, po := 6, prog := 7, ct := 1, fp := 2, pc := 9, fio := 0, vio := 0, ld := 0, rd := 0 }
+def okRun : TopObs := { before := obs0, after := obs0, failed := true, crashed := false }
+
+example : judgeObs okRun = [] := by decide
+example : judgeObs { okRun with crashed := true } ≠ [] := by decide
+example : judgeObs { okRun with after := { obs0 with sp := 4 } } ≠ [] := by decide          -- a leaked value-stack slot
+example : judgeObs { okRun with after := { obs0 with csp := 3 } } ≠ [] := by decide         -- a frame left behind
+example : judgeObs { okRun with after := { obs0 with ctx := 2 } } ≠ [] := by decide         -- chain not relinked
+example : judgeObs { okRun with after := { obs0 with cg := 0 } } ≠ [] := by decide          -- command_giver after a failure
+example : judgeObs { okRun with failed := false, after := { obs0 with cg := 0 } } = [] := by decide  -- … legitimate when it completed
+example : judgeObs { okRun with after := { obs0 with co := 0 } } ≠ [] := by decide
+example : judgeObs { okRun with after := { obs0 with po := 0 } } ≠ [] := by decide
+example : judgeObs { okRun with after := { obs0 with prog := 0 } } ≠ [] := by decide
+example : judgeObs { okRun with after := { obs0 with ct := 0 } } ≠ [] := by decide
+example : judgeObs { okRun with after := { obs0 with fp := 0 } } ≠ [] := by decide
+example : judgeObs { okRun with after := { obs0 with pc := 0 } } ≠ [] := by decide
+example : judgeObs { okRun with after := { obs0 with fio := 1 } } ≠ [] := by decide
+example : judgeObs { okRun with after := { obs0 with vio := 1 } } ≠ [] := by decide
+example : judgeObs { okRun with after := { obs0 with ld := -1 } } ≠ [] := by decide         -- load-depth guard
+example : judgeObs { okRun with after := { obs0 with rd := 7 } } ≠ [] := by decide          -- destruct restriction left set
 
 end NV.C05
